@@ -126,7 +126,7 @@ func init() {
 			c.CallOrder(ob2, "order:getBalance:read-after-fetch", gb, func(f *ssa.Function) bool { return f == fetch }, func(f *ssa.Function) bool { return f != fetch && f != batch && rd(f) }, "the balance is read only after the fetch")
 			run := c.Fn(ob2, relInterp, "RunProgram")
 			runSt := ir.Dispatcher
-			c.CallOrder(ob2, "order:RunProgram:statements-after-fetch", run, func(f *ssa.Function) bool { return f == fetch }, func(f *ssa.Function) bool { return f == runSt }, "statements run only after the balances were fetched")
+			c.CallOrder(ob2, "order:RunProgram:statements-after-fetch", run, reachesAvoiding(c, fetch, gb), reachesFn(c, runSt), "statements run only after the balances were fetched")
 			obCacheMergeOnly(c, "C10.3")
 			obBatchAlways(c, "C10.4b")
 			obWorldNeverQueried(c, "C10.4")
